@@ -353,7 +353,36 @@ def gen_mrq(rng, quick=True):
     }
 
 
+def gen_kk_de(rng, quick=True):
+    """Extension search by differential evolution (num_F_ext_evaluations < 0): documented-stochastic,
+    so the claim is conditional on a pinned global RNG state."""
+    n = rng.randint(15, 22)
+    return {
+        "entry": rng.choice(["evaluate_log_F_ext", "perform_kramers_kronig_test"]),
+        "data": {"cdc": rng.choice(LADDERS), "logf": rng.choice([[5, 0], [4, -1]]), "n": n,
+                 "noise_pct": rng.choice([0.1, 0.5]), "noise_seed": rng.randrange(10**6),
+                 "mask": mask_indices(rng, n, 0.3), "order": "desc"},
+        "kwargs": {"test": rng.choice(KK_LINEAR), "num_F_ext_evaluations": rng.choice([-10, -12]),
+                   "rapid_F_ext_evaluations": rng.random() < 0.6, "admittance": rng.random() < 0.3},
+        "stochastic": True,
+    }
+
+
+def gen_lm(rng, quick=True):
+    """Loewner-method DRT: runs Kramers-Kronig tests internally and passes num_procs on."""
+    n = rng.randint(14, 22)
+    return {
+        "entry": "calculate_drt",
+        "data": {"cdc": rng.choice(LADDERS[:3]), "logf": [5, 0], "n": n, "noise_pct": rng.choice([0.01, 0.1]),
+                 "noise_seed": rng.randrange(10**6), "mask": mask_indices(rng, n, 0.3), "order": "desc"},
+        "kwargs": {"method": "lm", "model_order": rng.choice([0, 0, 3]),
+                   "model_order_method": rng.choice(["matrix_rank", "pseudo_chisqr"])},
+    }
+
+
 GENERATORS = {
+    "kk_de": gen_kk_de,
+    "lm": gen_lm,
     "fit": gen_fit,
     "zhit": gen_zhit,
     "kk_ext": gen_kk_ext,
